@@ -408,6 +408,9 @@ async fn run_client_h2(stim: &Value, log: &Rec) {
         .await;
     match ch {
         Ok(ch) => {
+            // client.idle_ms: the (eagerly connected) channel sits idle for that long before its first call: time that must not count
+            // against any call's deadline
+            if let Some(ms) = stim["client"]["idle_ms"].as_u64() { tokio::time::sleep(std::time::Duration::from_millis(ms)).await; }
             // client.raw_timeout: the grpc-timeout header is overwritten with these bytes on the way out (malformed values
             // cannot be produced through Request::set_timeout); the channel's own timeout layer and the server both see it
             if stim["client"]["raw_timeout"].is_array() {
@@ -524,7 +527,8 @@ pub fn rand_script(rng: &mut impl Rng, shape: &str) -> Value {
     let k = if single { 1 } else { rng.gen_range(0..4) };
     let msgs: Vec<Value> = (0..k).map(|_| { let n = [0usize, 1, 3, 20, 200, 3000][rng.gen_range(0..6)]; bytes_json(&rb(rng, n)) }).collect();
     let end = if ok { json!({"ok":true}) } else {
-        let msg = ["", "boom", "bad: é%", "a b\nc", "100% \u{1F600}"][rng.gen_range(0..5)];
+        // (all-ASCII messages containing '%' - alone, before hex digits, before other characters - are where an escaping shortcut would show)
+        let msg = ["", "boom", "bad: é%", "a b\nc", "100% \u{1F600}", "bad query: name=J%C3%BCrgen&path=%2Ftmp%2Fx", "100%", "%41%zz% 7%ff"][rng.gen_range(0..8)];
         let dn = rng.gen_range(0..6);
         let via = ["direct", "direct", "boxed", "source", "source2"][rng.gen_range(0..5)];
         json!({"ok":false,"code":rng.gen_range(1..17),"msg":str_json(msg),"details":bytes_json(&rb(rng, dn)),"meta":crate::labs::status::rand_meta(rng),
